@@ -87,6 +87,9 @@ pub mod world {
         pub key_moves: u32,
         pub val_moves: u32,
         pub head_writes: u32,
+        /// values handed to the histogram containers by the statistics calls (see proofs.rs)
+        pub touched: [u32; 8],
+        pub ntouched: usize,
     }
     pub static mut W: World = World {
         keys: [NOKEY; NK],
@@ -112,6 +115,8 @@ pub mod world {
         key_moves: 0,
         val_moves: 0,
         head_writes: 0,
+        touched: [0; 8],
+        ntouched: 0,
     };
     pub fn w() -> &'static mut World {
         unsafe { &mut *core::ptr::addr_of_mut!(W) }
